@@ -552,6 +552,19 @@ static Op gen_pair_op(Rng& r, std::string& kind) {
     if (r.chance(1, 3)) op.args[5] = gen_pat_path(r);
     return op;
   }
+  if (r.chance(1, 7)) {
+    // pathname (and possibly search / hash) inherited from the base: {baseURL}, {hash, baseURL}, {search, baseURL}
+    kind = "inherit_tail";
+    static const char* const bases[] = {"https://example.com/p?", "https://example.com/p?q#", "https://example.com/#", "https://example.com/a(b)/c?x=1#y",
+                                        "http://h:8080/dir/file?k=v", "https://example.com/plain", "foo://h/x?#", "https://example.com/v1:beta/?a+b#c*"};
+    op.args[8] = pick(r, bases);
+    switch (r.below(3)) {
+      case 0: break;
+      case 1: op.args[7] = pickl(r, {"h", ":frag", ""}); break;
+      default: op.args[6] = pickl(r, {"s=1", ":q", ""}); break;
+    }
+    return op;
+  }
   if (r.chance(1, 8)) {
     // an unparsable baseURL is a TypeError whatever else the dictionary contains
     kind = "badbase";
@@ -624,6 +637,24 @@ static std::optional<Op> pair_twin(const Op& a, const std::string& kind) {
     return b;
   }
   if (kind == "badbase") return std::nullopt;  // handled in execute: construction must fail
+  if (kind == "inherit_tail") {
+    if (!a.args[8]) return std::nullopt;
+    auto base = ada::parse<ada::url_aggregator>(*a.args[8]);
+    if (!base || base->has_opaque_path) return std::nullopt;
+    std::string proto(base->get_protocol());
+    if (!proto.empty() && proto.back() == ':') proto.pop_back();
+    b.args[8].reset();
+    b.args[0] = esc_pattern(proto);
+    b.args[3] = esc_pattern(base->get_hostname());
+    b.args[4] = esc_pattern(base->get_port());
+    b.args[5] = esc_pattern(base->get_pathname());
+    std::string q(base->get_search()), f(base->get_hash());
+    if (!q.empty() && q[0] == '?') q.erase(0, 1);
+    if (!f.empty() && f[0] == '#') f.erase(0, 1);
+    if (!a.args[6]) b.args[6] = esc_pattern(q);              // search is inherited unless given
+    if (!a.args[6] && !a.args[7]) b.args[7] = esc_pattern(f);  // hash only if neither search nor hash is given
+    return b;
+  }
   if (!a.args[5] || !a.args[8]) return std::nullopt;
   auto base = ada::parse<ada::url_aggregator>(*a.args[8]);
   if (!base || base->has_opaque_path) return std::nullopt;
@@ -844,6 +875,28 @@ static Result execute(const Plan& p, Stats& st) {
   Result res;
   auto ops = p.thread_ops(0);
   HookState& hs = hooks();
+  if (p.property == "C15" && p.cfg_s("pair") == "badbase" && !ops.empty()) {
+    // Runs BEFORE anything else constructs this pattern and starts from a construction with a good base, so that the
+    // verdict does not depend on what earlier runs of the process left behind (a per-thread cache of the last base, say).
+    hs.off();
+    Hist<ada::url_aggregator> h1;
+    Op good = ops[0];
+    good.args[8] = "https://good.example/dir/file";
+    (void)exec_op(good, h1);
+    const bool unparsable = ops[0].args.size() > 8 && ops[0].args[8] && !ada::parse<ada::url_aggregator>(*ops[0].args[8]);
+    st.add("pair.badbase.checked");
+    for (int attempt = 0; attempt < 2 && unparsable; attempt++) {
+      std::string a = exec_op(ops[0], h1).text;
+      if (a.find("construct=ok") != std::string::npos) {
+        res.violation = true;
+        res.vclass = "base-inheritance-changes-outcome";
+        res.sig = "unparsable-base-accepted";
+        res.detail = ops[0].pretty() + ": construction " + (attempt ? "succeeds the second time" : "succeeds") + " although the baseURL does not parse";
+        res.hash = fnv1a(a);
+        return res;
+      }
+    }
+  }
   uint64_t mask = p.cfg_u("mask"), prob = p.cfg_u("prob256", 256), bseed = p.cfg_u("bseed");
   const bool is_pattern = p.property != "C01";
   std::string A[2], B[2];
@@ -1070,25 +1123,8 @@ static Result execute(const Plan& p, Stats& st) {
         return res;
       }
     }
-  } else if (p.property == "C15" && p.cfg_s("pair") == "badbase" && !ops.empty()) {
-    hs.off();
-    Hist<ada::url_aggregator> h1;
-    {  // history: a construction with a good base first, then the bad one (twice: A above already was one attempt)
-      Op good = ops[0];
-      good.args[8] = "https://good.example/dir/file";
-      (void)exec_op(good, h1);
-    }
-    std::string a = exec_op(ops[0], h1).text;
-    if (a.find("construct=ok") == std::string::npos) a = exec_op(ops[0], h1).text;  // same unparsable base once more
-    st.add("pair.badbase.checked");
-    bool unparsable = ops[0].args.size() > 8 && ops[0].args[8] && !ada::parse<ada::url_aggregator>(*ops[0].args[8]);
-    if (unparsable && a.find("construct=ok") != std::string::npos) {
-      res.violation = true;
-      res.vclass = "base-inheritance-changes-outcome";
-      res.sig = "unparsable-base-accepted";
-      res.detail = ops[0].pretty() + ": construction succeeds although the baseURL does not parse";
-      return res;
-    }
+  } else if (p.property == "C15" && p.cfg_s("pair") == "badbase") {
+    // handled at the top of execute()
   } else if (p.property == "C15" && p.cfg.count("pair") && !ops.empty()) {
     const std::string kind = p.cfg_s("pair");
     auto twin = pair_twin(ops[0], kind);
